@@ -233,7 +233,7 @@ def category(cls, k):
     return "free"
 
 
-AOPS = ["get_present", "get_missing", "set_new", "set_replace", "set_container", "del_present", "del_missing", "item_store_then_attr"]
+AOPS = ["get_present", "get_missing", "set_new", "set_replace", "set_container", "del_present", "del_missing", "item_store_then_attr", "get_after_other_deleted", "get_after_other_retyped"]
 
 
 def build(fam, env, position, res, key, present, x):
@@ -401,6 +401,32 @@ def attr_item(ps: int, ki: int, oi: int, x: int, v: int) -> bool:
         return finish(True, True)
 
     # free keys: attribute syntax == item syntax
+    if op in ("get_after_other_deleted", "get_after_other_retyped"):
+        # the key holds a nested container that this handle has loaded; ANOTHER object on the same
+        # resource then removes it / replaces it by a scalar: attribute syntax must reload like item
+        # syntax does (no shortcut through the cached child)
+        if not valid_key:
+            return finish(True, True)
+        path = {"root": (), "in-dict": ("a",), "in-list": ("l", 1), "depth3": ("a", "l", 0), "list-root": (0,)}[position]
+        which_root = "list" if position == "list-root" else "dict"
+        for t, res in ((t1, "r1"), (t2, "r2")):
+            t[key] = {"p": v}
+            t()
+            other = fam.make(env, which_root, res)
+            for kk in path:
+                other = other[kk]
+            if op == "get_after_other_deleted":
+                del other[key]
+            else:
+                other[key] = 7
+        a = outcome(lambda: GA(t1, key))
+        b = outcome(lambda: t2[key])
+        if a[0] != b[0]:
+            return finish(True, fail(lambda: f"{label}: attribute syntax {a!r}, item syntax {b!r}"))
+        if a[0] == "exc":
+            good = isinstance(a[1], AttributeError) if isinstance(b[1], KeyError) else isinstance(a[1], type(b[1]))
+            return finish(True, good or fail(lambda: f"{label}: attribute syntax raised {a[1]!r}, item syntax {b[1]!r}"))
+        return finish(True, eq_plain(plain(a[1]), plain(b[1])) or fail(lambda: f"{label}: attribute syntax returned {plain(a[1])!r}, item syntax {plain(b[1])!r}"))
     if op in ("get_present", "get_missing"):
         a = outcome(lambda: GA(t1, key))
         b = outcome(lambda: t2[key])
